@@ -157,21 +157,32 @@ func hasMinMaxValidation(a *AttributeExpr) bool {
 // byLength generates a random size array of examples based on what's given.
 func byLength(a *AttributeExpr, r *ExampleGenerator) any {
 	count := NewLength(a, r)
-	switch a.Type.Kind() {
+	// The length validation may be set on an attribute whose type is a user
+	// type (an alias of a string, bytes, array or map type, e.g. the types
+	// created for the values of a union): look at the underlying type.
+	dt := a.Type
+	for {
+		ut, ok := dt.(UserType)
+		if !ok || ut.Attribute() == nil || ut.Attribute().Type == nil {
+			break
+		}
+		dt = ut.Attribute().Type
+	}
+	switch dt.Kind() {
 	case StringKind:
 		return r.Characters(count)
 	case BytesKind:
 		return []byte(r.Characters(count))
 	case MapKind:
 		raw := make(map[any]any)
-		m := a.Type.(*Map)
+		m := dt.(*Map)
 		for i := 0; i < count; i++ {
 			raw[m.KeyType.Example(r)] = m.ElemType.Example(r)
 		}
 		return m.MakeMap(raw)
 	case ArrayKind:
 		raw := make([]any, count)
-		ar := a.Type.(*Array)
+		ar := dt.(*Array)
 		for i := 0; i < count; i++ {
 			raw[i] = ar.ElemType.Example(r)
 		}
